@@ -378,6 +378,45 @@ def drive_giant(rec):
     rec.data["ok"] = ok
 
 
+def drive_giant_tail(rec):
+    """NTT120 vec_znx_dft N = 65536 of one limb into 2050 rows (thorough tier only; 4.3 GB): more than 4 GiB of zero extension in one call"""
+    import ctypes
+    import numpy as np
+    from lib import Buf, NTT120, MASK_NONE
+    rng = random.Random(rec.seed + 44)
+    L = Lib.get()
+    n, rows = 65536, 2050
+    rec.data["ok"] = 0
+    rec.data["events"] = []
+    try:
+        avail = int([l for l in open("/proc/meminfo") if l.startswith("MemAvailable")][0].split()[1]) // 1024      # MiB
+    except (OSError, IndexError, ValueError):
+        avail = 0
+    if avail < 12000:
+        rec.notes.append("giant zero extension: only %d MiB of memory available, 12000 needed - skipped (not a verdict)" % avail)
+        return
+    sp = Sparse(rows * 32 * n + (1 << 16))
+    if sp.addr is None:
+        rec.notes.append("giant zero extension: the mapping was refused by the system (not a verdict)")
+        return
+    modn = L.module(n, NTT120, MASK_NONE)
+    if rec.progress("vec_znx_dft on an NTT120 module N=%d res_size=%d a_size=1 (more than 4 GiB of zero extension)" % (n, rows)):
+        sp.u8(0, rows * 32 * n)[:] = 0x5A
+        a1, d1 = Buf(8 * n), Buf(32 * n, fill=0x33)
+        a1.i64[:] = np.random.default_rng(rec.seed + 3).integers(-(1 << 62), 1 << 62, n, dtype=np.int64)
+        L.call("vec_znx_dft", modn, ctypes.c_void_p(sp.addr), rows, a1, 1, n)
+        L.call("vec_znx_dft", modn, d1, 1, a1, 1, n)
+        rec.case(("giant", "ntt120 vec_znx_dft zero extension"))
+        samp = sorted(set([0, 1, 2, 3, 2046, 2047, 2048, rows - 1] + [rng.randrange(rows) for _ in range(8)]))
+        bad = [i for i in samp if not np.array_equal(sp.u8(i * 32 * n, 32 * n), d1.u8 if i == 0 else np.zeros(32 * n, dtype=np.uint8))]
+        if bad:
+            rec.violation("vec_znx_dft (NTT120) N=%d res_size=%d a_size=1: rows %s are not the transform (row 0) / zero (the others)" % (n, rows, bad[:5]), {})
+        else:
+            rec.data["ok"] = 1
+    L.delete_module(modn)
+    sp.close()
+
+
 def drive_volume(rec, quick):
     """Large objects (2^22 coefficients and more: 32 MiB per operand), contiguous limbs, every operand at its own alignment class
     (0, 8, 16, 24 bytes past a 32-byte boundary).  The limb-wise entry points - coefficient and big-coefficient arithmetic, DFT, inverse DFT,
@@ -544,7 +583,9 @@ def run(chk, replay=None):
     if not quick:
         dg = isolated(chk, "objects of more than 4 GiB", drive_giant, (), timeout=1800)
         chk.traces += dg["ok"] if dg else 0
-        chk.cov["giant_object_calls"] = dg["ok"] if dg else 0
+        dt = isolated(chk, "NTT120 zero extension of more than 4 GiB", drive_giant_tail, (), timeout=1800)
+        chk.traces += dt["ok"] if dt else 0
+        chk.cov["giant_object_calls"] = (dg["ok"] if dg else 0) + (dt["ok"] if dt else 0)
     chk.cov["exhaustive"] = True
     chk.cov["box"] = "sizes 0..3 x strides {N, N+delta, 2N} x aliasing {none, res=a, res=b, a=b, all} x 16 operations"
     chk.cov["rule"] = "one case = (direction, op, module kind, sizes, stride kinds, alias, N class); non-trivial when res_size > 0"
